@@ -5,6 +5,8 @@ From Coq Require Import List String.
 Inductive event :=
 | Lock                               (* recv.mtx.Lock() *)
 | Unlock                             (* recv.mtx.Unlock(), also the deferred one before a Return *)
+| RLock                              (* recv.mtx.RLock(): shared side of a sync.RWMutex *)
+| RUnlock                            (* recv.mtx.RUnlock() *)
 | ReadField (f : string)             (* recv.f, or memory reached through it, is read *)
 | WriteField (f : string)            (* recv.f, or memory reached through it, is written *)
 | CallWorker (w : string)            (* recv.w(..): method of the same type on the same receiver *)
